@@ -145,40 +145,30 @@ theorem inbound_pause_exact {s : Inb} (h : IReach s) :
   have hi := ireach_inv (by decide) (by decide) h
   exact ⟨hi.exact, hi.alt⟩
 
-/-- Inbound, subchannels that are still open: whatever sequence of pause/resume/stop requests,
-    local opens, `subchannel_closed` calls (of paused or unpaused subchannels) and connection changes,
-    every subchannel whose application asked for a pause and has not resumed, stopped or been closed
-    since (`w`) is still in `_paused_subchannels`; so while there is one, the TCP transport of the
-    current connection — including a replacement connection — has last been told "pause".  Closing
-    one paused subchannel never resumes the connection under another one that still wants the pause. -/
-theorem open_pause_honoured {s : Inb} {w : List Nat} (h : IReachW s w) :
-    (∀ sc, sc ∈ w → sc ∈ s.pausedSc) ∧
-    (∀ g, s.conn = some g → w ≠ [] → lastPaused g s.log = true) := by
-  refine ⟨want_subset h, fun g hg hw => ?_⟩
-  obtain ⟨sc, hsc⟩ := List.exists_mem_of_ne_nil _ hw
-  have hp := want_subset h sc hsc
-  exact ((inbound_pause_exact h.reach).1 g hg).2 (by intro h0; rw [h0] at hp; cases hp)
-
-/-- the full "paused exactly while an open subchannel's application wants it" statement … -/
-def inbound_open_exact_statement : Prop :=
-  ∀ s w, IReachW s w → ∀ g, s.conn = some g → (lastPaused g s.log = true ↔ w ≠ [])
-
-/-- … of which `open_pause_honoured` is the proved half (`⇐`, the safety direction) … -/
-theorem inbound_open_exact_partial {s : Inb} {w : List Nat} (h : IReachW s w) (g : Nat) (hg : s.conn = some g) :
-    w ≠ [] → lastPaused g s.log = true :=
-  (open_pause_honoured h).2 g hg
-
-/-- … and whose other half is false for the current code: `Inbound.subchannel_closed` does not
-    take a closed subchannel out of `_paused_subchannels`, so after `use_connection; open 1;
-    pause 1; close 1` nobody who could ever resume is left, yet the connection stays paused (and
-    every later connection is paused at once).  Replayed on the real code by the harness corpus
-    (tag `obs:closed-subchannel-holds-pause`). -/
-theorem inbound_open_exact_fails_on_current : ¬ inbound_open_exact_statement := by
-  intro hall
-  have h := hall _ _ (IReachW.step (.close 1) (IReachW.step (.pause 1) (IReachW.step (.opn 1)
-    (IReachW.step .use IReachW.init)))) 1 (by decide)
-  revert h
-  decide
+/-- Inbound, full statement: for every sequence of pause/resume/stop requests, local opens,
+    `subchannel_closed` calls (of paused or unpaused subchannels, any number of them paused at the
+    time) and connection changes, the TCP transport of the current connection — also of a replacement
+    connection — has last been told "pause" exactly while some subchannel has an outstanding pause
+    request (`g.w`: asked, and neither resumed, stopped nor closed since); nobody in `g.w` is closed.
+    So closing one paused subchannel never resumes the connection under another that still wants the
+    pause, and a subchannel closed while paused does not keep the connection paused.
+    Environment (`iopOK`): the application of a closed subchannel does not call `pauseProducing` again. -/
+theorem inbound_open_exact {s : Inb} {g : Ghost} (h : IReachW s g) :
+    (∀ c, s.conn = some c → (lastPaused c s.log = true ↔ g.w ≠ [])) ∧
+    (∀ sc, sc ∈ g.w → sc ∉ g.cl) ∧ altOK s.log = true := by
+  obtain ⟨hw, hcl⟩ := want_eq h
+  obtain ⟨hex, halt⟩ := inbound_pause_exact h.reach
+  refine ⟨fun c hc => ?_, hcl, halt⟩
+  rw [hex c hc]
+  constructor
+  · intro hne h0
+    obtain ⟨sc, hsc⟩ := List.exists_mem_of_ne_nil _ hne
+    have := (hw sc).2 hsc
+    rw [h0] at this; cases this
+  · intro hne h0
+    obtain ⟨sc, hsc⟩ := List.exists_mem_of_ne_nil _ hne
+    have := (hw sc).1 hsc
+    rw [h0] at this; cases this
 
 /-- the call skeletons of the anchored methods, as regenerated from the working tree on this run,
     are the ones the model's operations were written against (a dropped, added or re-ordered call
@@ -200,7 +190,7 @@ theorem skeleton_agrees :
     Gen.Skel.skeleton "Outbound.queue_and_send_record" = [("if/else", "_connection.send_record")] ∧
     Gen.Skel.skeleton "Inbound.use_connection" = [("if", "_connection.pauseProducing")] ∧
     Gen.Skel.skeleton "Inbound.stop_using_connection" = [] ∧
-    Gen.Skel.skeleton "Inbound.subchannel_closed" = [] ∧
+    Gen.Skel.skeleton "Inbound.subchannel_closed" = [("-", "self.subchannel_stopProducing")] ∧
     Gen.Skel.skeleton "Inbound.subchannel_local_open" = [("-", "ISubChannel.providedBy")] ∧
     Gen.Skel.skeleton "Manager.subchannel_closed" = [("-", "_inbound.subchannel_closed"), ("-", "_outbound.subchannel_closed")] ∧
     Gen.Skel.skeleton "Inbound.subchannel_pauseProducing" = [("if", "_connection.pauseProducing")] ∧
@@ -254,11 +244,17 @@ def iex : Inb := istep (istep (istep (istep {} .use) (.pause 7)) .stop) .use
 example : IReach iex := IReach.step _ (IReach.step _ (IReach.step _ (IReach.step _ IReach.init)))
 example : iex.conn = some 2 ∧ iex.pausedSc = [7] ∧ iex.log = [.tPause 2, .tPause 1] := by decide
 
-/-- hypotheses of `open_pause_honoured`: two open subchannels paused, one of them closed, the
-    connection replaced — the other one still holds the pause -/
+/-- hypotheses of `inbound_open_exact`: two open subchannels paused, one of them closed, the
+    connection replaced — the other one still holds the pause … -/
 def iexW : Inb := istep (istep (istep (istep (istep (istep (istep (istep {} .use) (.opn 1)) (.opn 2)) (.pause 1)) (.pause 2)) (.close 1)) .stop) .use
-example : ∃ w, IReachW iexW w ∧ w = [2] ∧ iexW.conn = some 2 ∧ iexW.openSc = [2] :=
+example : ∃ g, IReachW iexW g ∧ g.w = [2] ∧ g.cl = [1] ∧ iexW.conn = some 2 ∧ iexW.openSc = [2] ∧
+    iexW.log = [.tPause 2, .tPause 1] :=
   ⟨_, IReachW.step .use (IReachW.step .stop (IReachW.step (.close 1) (IReachW.step (.pause 2) (IReachW.step (.pause 1)
-    (IReachW.step (.opn 2) (IReachW.step (.opn 1) (IReachW.step .use IReachW.init))))))), by decide, by decide, by decide⟩
+    (IReachW.step (.opn 2) (IReachW.step (.opn 1) (IReachW.step .use IReachW.init trivial) trivial) trivial) (by decide)) (by decide))
+    trivial) trivial) trivial, by decide, by decide, by decide, by decide, by decide⟩
+
+/-- … and the only paused subchannel closed: the connection is resumed (the defect fixed by bec439a) -/
+def iexC : Inb := istep (istep (istep (istep {} .use) (.opn 1)) (.pause 1)) (.close 1)
+example : iexC.pausedSc = [] ∧ iexC.log = [.tResume 1, .tPause 1] := by decide
 
 end WV.Props.C15
